@@ -466,7 +466,9 @@ class ParserText(ParserBase):
         try:
             value = self._parsable[self._parsed_length:]
             date_time = dateutil.parser.parse(six.ensure_text(value, self._encoding))
-        except ValueError as e:
+            if date_time.tzinfo is not None:
+                date_time.astimezone(dateutil.tz.UTC)  # out of range offset or instant
+        except (ValueError, OverflowError) as e:
             six.raise_from(InvalidValue(value, type(self), 'value'), e)
 
         self._parsed_values[name] = date_time
